@@ -4,7 +4,7 @@
   notes/proto_codec_roundtrip.lean to the real model (`Mds.encEv`) and the real interpreter
   (`Seq.step`).
 
-  Invariant `Good e s O`: the encoder's `lastNote`/`lastRest`, when not `0xffff`, equal the
+  Invariant `Good M e s O`: the encoder's `lastNote`/`lastRest`, when not `0xffff`, equal the
   interpreter's registers; either the interpreter stands at the end of the bytes emitted so far
   ("idle"), or the last emitted byte is a bare note/tie byte that the interpreter has not
   executed yet ("pending": its length is the remembered one unless the next byte is a length).
@@ -17,7 +17,7 @@ import Ctrmml.Proofs.CodecBase
 namespace Ctrmml.Codec
 open Ctrmml.Mds Ctrmml.Seq Tables
 
-variable {seq : List Nat} {base mj : Nat}
+variable {seq : List Nat} {base mj : Nat} {M : Mode}
 
 /-! ### the encoder's predicates in closed form -/
 
@@ -82,41 +82,41 @@ def RegOk (r : Nat) (o : Option Nat) : Prop := r ≠ U16 → r < 128 ∧ o = som
 
 theorem RegOk.set (b : Nat) (hb : b < 128) : RegOk b (some b) := fun _ => ⟨hb, rfl⟩
 
-structure Good (e : Enc) (s : St) (O : List Tk) : Prop where
+structure Good (M : Mode) (e : Enc) (s : St) (O : List Tk) : Prop where
   note : RegOk e.lastNote s.lastNote
   rest : RegOk e.lastRest s.lastRest
-  drum : s.drum = false
+  drum : s.drum = M.dm
   mode : (needLenB e = false ∧ s.pc = e.out.length ∧ s.out = O) ∨
          (needLenB e = true ∧ e.lastNote ≠ U16 ∧ ∃ ty, e.out.getLast? = some ty ∧ 0x81 ≤ ty ∧ ty < 0xe0 ∧
-            s.pc + 1 = e.out.length ∧ O = (noteTicks ty (e.lastNote + 1)).reverse ++ s.out)
+            s.pc + 1 = e.out.length ∧ O = (M.nt ty (e.lastNote + 1)).reverse ++ s.out ∧ M.okTy ty = true)
 
 /-- between instructions -/
-structure Idle (e : Enc) (s : St) (O : List Tk) : Prop where
+structure Idle (M : Mode) (e : Enc) (s : St) (O : List Tk) : Prop where
   note : RegOk e.lastNote s.lastNote
   rest : RegOk e.lastRest s.lastRest
-  drum : s.drum = false
+  drum : s.drum = M.dm
   pc : s.pc = e.out.length
   out : s.out = O
 
-theorem Idle.good {e : Enc} {s : St} {O : List Tk} (i : Idle e s O) (h : needLenB e = false) : Good e s O :=
+theorem Idle.good {e : Enc} {s : St} {O : List Tk} (i : Idle M e s O) (h : needLenB e = false) : Good M e s O :=
   ⟨i.note, i.rest, i.drum, .inl ⟨h, i.pc, i.out⟩⟩
 
 /-- a byte `≥ 0x80` follows: the pending note (if any) is played with the remembered length -/
-theorem resolve {e : Enc} {s : St} {O : List Tk} (g : Good e s O) {b : Nat} {r : List Nat} (hb : b ≥ 0x80)
-    (hp : e.out ++ b :: r <+: seq) :
-    ∃ s1, Reach seq base mj s s1 ∧ Frame s s1 ∧ Idle e s1 O := by
-  rcases g.mode with ⟨_, hpc, ho⟩ | ⟨_, hk, ty, hl, h1, h2, hpc, ho⟩
+theorem resolve (hS : M.Sound seq base mj) {e : Enc} {s : St} {O : List Tk} (g : Good M e s O) {b : Nat}
+    {r : List Nat} (hb : b ≥ 0x80) (hp : e.out ++ b :: r <+: seq) :
+    ∃ s1, Reach seq base mj s s1 ∧ Frame s s1 ∧ Idle M e s1 O := by
+  rcases g.mode with ⟨_, hpc, ho⟩ | ⟨_, hk, ty, hl, h1, h2, hpc, ho, hok⟩
   · exact ⟨s, .refl _, Frame.rfl' _, ⟨g.note, g.rest, g.drum, hpc, ho⟩⟩
   · obtain ⟨hlt, hn⟩ := g.note hk
     have r0 : seq[s.pc]? = some ty := rd_last hp hl hpc
     have r1 : seq[s.pc + 1]? = some b := by rw [hpc]; exact rd_at hp
-    have hs := step_noteBare (base := base) (mj := mj) r0 h1 h2 r1 (by omega) hn g.drum
-    refine ⟨_, .one hs (by simp [emitNote_out]), ⟨rfl, rfl, rfl, rfl⟩, ⟨?_, ?_, ?_, ?_, ?_⟩⟩
-    · simpa [emitNote] using g.note
-    · simpa [emitNote] using g.rest
-    · simpa [emitNote] using g.drum
-    · simp [emitNote]; omega
-    · rw [emitNote_out, ho]
+    obtain ⟨s1, rr, fr, hpc1, hn1, hr1, ho1⟩ := note_bare hS r0 h1 h2 r1 (by omega) hn g.drum hok
+    refine ⟨s1, rr, fr, ⟨?_, ?_, ?_, ?_, ?_⟩⟩
+    · rw [hn1]; exact g.note
+    · rw [hr1]; exact g.rest
+    · rw [fr.drum]; exact g.drum
+    · rw [hpc1]; omega
+    · rw [ho1, ho]
 
 theorem disambP_prefix (e : Enc) : e.out <+: (disambP e).out := by
   unfold disambP; split
@@ -124,10 +124,11 @@ theorem disambP_prefix (e : Enc) : e.out <+: (disambP e).out := by
   · exact List.prefix_refl _
 
 /-- the disambiguation step: a pending note gets its explicit length byte -/
-theorem disamb_good {e : Enc} {s : St} {O : List Tk} (g : Good e s O) (hp : (disambP e).out <+: seq) :
-    ∃ s1, Reach seq base mj s s1 ∧ Frame s s1 ∧ Idle (disambP e) s1 O ∧ needLenB (disambP e) = false ∧
+theorem disamb_good (hS : M.Sound seq base mj) {e : Enc} {s : St} {O : List Tk} (g : Good M e s O)
+    (hp : (disambP e).out <+: seq) :
+    ∃ s1, Reach seq base mj s s1 ∧ Frame s s1 ∧ Idle M (disambP e) s1 O ∧ needLenB (disambP e) = false ∧
       (disambP e).lastNote = e.lastNote ∧ (disambP e).lastRest = e.lastRest := by
-  rcases g.mode with ⟨hn, hpc, ho⟩ | ⟨hn, hk, ty, hl, h1, h2, hpc, ho⟩
+  rcases g.mode with ⟨hn, hpc, ho⟩ | ⟨hn, hk, ty, hl, h1, h2, hpc, ho, hok⟩
   · have : disambP e = e := by simp [disambP, hn]
     rw [this]
     exact ⟨s, .refl _, Frame.rfl' _, ⟨g.note, g.rest, g.drum, hpc, ho⟩, hn, rfl, rfl⟩
@@ -138,23 +139,23 @@ theorem disamb_good {e : Enc} {s : St} {O : List Tk} (g : Good e s O) (hp : (dis
     rw [hd] at hp ⊢
     have r0 : seq[s.pc]? = some ty := rd_last hp hl hpc
     have r1 : seq[s.pc + 1]? = some e.lastNote := by rw [hpc]; exact rd_at hp
-    have hs := step_noteLen (base := base) (mj := mj) r0 h1 h2 r1 hlt g.drum
-    refine ⟨_, .one hs (by simp [emitNote_out]), ⟨rfl, rfl, rfl, rfl⟩, ⟨?_, ?_, ?_, ?_, ?_⟩, ?_, rfl, rfl⟩
-    · intro _; exact ⟨hlt, by simp [emitNote]⟩
-    · simpa [emitNote] using g.rest
-    · simpa [emitNote] using g.drum
-    · simp [emitNote]; omega
-    · rw [emitNote_out, ho]
+    obtain ⟨s1, rr, fr, hpc1, hn1, hr1, ho1⟩ := note_len hS r0 h1 h2 r1 hlt g.drum hok
+    refine ⟨s1, rr, fr, ⟨?_, ?_, ?_, ?_, ?_⟩, ?_, rfl, rfl⟩
+    · intro _; exact ⟨hlt, hn1⟩
+    · rw [hr1]; exact g.rest
+    · rw [fr.drum]; exact g.drum
+    · rw [hpc1]; simp; omega
+    · rw [ho1, ho]
     · simp [needLenB, noteish, mds_REST, mds_TIE]
 
-theorem Idle.congr {e e' : Enc} {s : St} {O : List Tk} (i : Idle e s O) (ho : e'.out = e.out)
-    (hn : e'.lastNote = e.lastNote) (hr : e'.lastRest = e.lastRest) : Idle e' s O :=
+theorem Idle.congr {e e' : Enc} {s : St} {O : List Tk} (i : Idle M e s O) (ho : e'.out = e.out)
+    (hn : e'.lastNote = e.lastNote) (hr : e'.lastRest = e.lastRest) : Idle M e' s O :=
   ⟨hn ▸ i.note, hr ▸ i.rest, i.drum, ho ▸ i.pc, i.out⟩
 
 /-- a literal rest byte from an idle state -/
-theorem pushRest_good {e e' : Enc} {s : St} {O : List Tk} (i : Idle e s O) {b : Nat} (hb : b < 0x80)
+theorem pushRest_good {e e' : Enc} {s : St} {O : List Tk} (i : Idle M e s O) {b : Nat} (hb : b < 0x80)
     (ho : e'.out = e.out ++ [b]) (hr : e'.lastRest = b) (hn : e'.lastNote = e.lastNote) (hp : e'.out <+: seq) :
-    ∃ s1, Reach seq base mj s s1 ∧ Frame s s1 ∧ Idle e' s1 (List.replicate (b + 1) Tk.off ++ O) := by
+    ∃ s1, Reach seq base mj s s1 ∧ Frame s s1 ∧ Idle M e' s1 (List.replicate (b + 1) Tk.off ++ O) := by
   rw [ho] at hp
   have r0 : seq[s.pc]? = some b := by rw [i.pc]; exact rd_at hp
   have hs := step_restLit (base := base) (mj := mj) r0 hb
@@ -201,9 +202,9 @@ theorem restLoop_ok : ∀ (fuel : Nat) (e : Enc) (arg : Nat), ∃ e' a, restLoop
     · simp only [hc, if_false]; exact ⟨e, arg, rfl⟩
 
 /-- the 128-tick splitting of a rest; fuel `f` suffices for `arg < 128 (f + 1)` -/
-theorem restLoop_good : ∀ (fuel : Nat) (e : Enc) (arg : Nat) (s : St) (O : List Tk) (e' : Enc) (a : Nat),
-    Good e s O → restLoop fuel e arg = .ok (e', a) → arg < 128 * (fuel + 1) → e'.out <+: seq →
-    ∃ s1, Reach seq base mj s s1 ∧ Frame s s1 ∧ Good e' s1 (List.replicate (arg - a) Tk.off ++ O) ∧
+theorem restLoop_good (hS : M.Sound seq base mj) : ∀ (fuel : Nat) (e : Enc) (arg : Nat) (s : St) (O : List Tk) (e' : Enc) (a : Nat),
+    Good M e s O → restLoop fuel e arg = .ok (e', a) → arg < 128 * (fuel + 1) → e'.out <+: seq →
+    ∃ s1, Reach seq base mj s s1 ∧ Frame s s1 ∧ Good M e' s1 (List.replicate (arg - a) Tk.off ++ O) ∧
       a < 128 ∧ a ≤ arg := by
   intro fuel
   induction fuel with
@@ -219,7 +220,7 @@ theorem restLoop_good : ∀ (fuel : Nat) (e : Enc) (arg : Nat) (s : St) (O : Lis
     · simp only [hc, if_true] at h
       have hfr2 := restLoop_frame _ _ _ _ _ h
       have hp2 : ((disambP e).out ++ [0x7f]) <+: seq := hfr2.1.trans hp
-      obtain ⟨s1, r1, f1, i1, _, hn1, hr1⟩ := disamb_good (base := base) (mj := mj) g ((List.prefix_append _ _).trans hp2)
+      obtain ⟨s1, r1, f1, i1, _, hn1, hr1⟩ := disamb_good (base := base) (mj := mj) hS g ((List.prefix_append _ _).trans hp2)
       obtain ⟨s2, r2, f2, i2⟩ := pushRest_good (base := base) (mj := mj)
         (e' := { disambP e with out := (disambP e).out ++ [0x7f], lastRest := 0x7f }) i1 (by omega) rfl rfl rfl hp2
       have g2 := i2.good (by simp [needLenB, lastGt80_concat])
@@ -234,9 +235,9 @@ theorem restLoop_good : ∀ (fuel : Nat) (e : Enc) (arg : Nat) (s : St) (O : Lis
       exact ⟨s, .refl _, Frame.rfl' _, by simpa using g, by omega, Nat.le_refl _⟩
 
 /-- a rest of `n` ticks, `1 ≤ n ≤ 65535` -/
-theorem encRest_good {e : Enc} {s : St} {O : List Tk} (g : Good e s O) {n : Nat} (h1 : 1 ≤ n) (h2 : n ≤ 65535)
+theorem encRest_good (hS : M.Sound seq base mj) {e : Enc} {s : St} {O : List Tk} (g : Good M e s O) {n : Nat} (h1 : 1 ≤ n) (h2 : n ≤ 65535)
     {e' : Enc} (h : encRest e n = .ok e') (hp : e'.out <+: seq) :
-    ∃ s1, Reach seq base mj s s1 ∧ Frame s s1 ∧ Idle e' s1 (List.replicate n Tk.off ++ O) := by
+    ∃ s1, Reach seq base mj s s1 ∧ Frame s s1 ∧ Idle M e' s1 (List.replicate n Tk.off ++ O) := by
   obtain ⟨e1, a, hrl⟩ := restLoop_ok 512 e (n - 1)
   have hfr := restLoop_frame _ _ _ _ _ hrl
   unfold encRest at h
@@ -249,9 +250,9 @@ theorem encRest_good {e : Enc} {s : St} {O : List Tk} (g : Good e s O) {n : Nat}
   · simp only [hc, if_true, Except.ok.injEq] at h
     subst h
     have hp1 : e1.out ++ [mds_REST] <+: seq := hp
-    obtain ⟨s1, r1, f1, g1, ha, hle⟩ := restLoop_good (base := base) (mj := mj) 512 e (n - 1) s O e1 a g hrl (by omega)
+    obtain ⟨s1, r1, f1, g1, ha, hle⟩ := restLoop_good (base := base) (mj := mj) hS 512 e (n - 1) s O e1 a g hrl (by omega)
       ((List.prefix_append _ _).trans hp1)
-    obtain ⟨s2, r2, f2, i2⟩ := resolve (base := base) (mj := mj) g1 (b := mds_REST) (by decide) hp1
+    obtain ⟨s2, r2, f2, i2⟩ := resolve (base := base) (mj := mj) hS g1 (b := mds_REST) (by decide) hp1
     have hU : e1.lastRest ≠ U16 := by rw [← hc]; simp [U16]; omega
     obtain ⟨_, hrr⟩ := i2.rest hU
     have r0 : seq[s2.pc]? = some mds_REST := by rw [i2.pc]; exact rd_at hp1
@@ -264,9 +265,9 @@ theorem encRest_good {e : Enc} {s : St} {O : List Tk} (g : Good e s O) {n : Nat}
     subst h
     have hp1 : (disambP e1).out ++ [a % 256] <+: seq := hp
     have hpd : (disambP e1).out <+: seq := (List.prefix_append _ _).trans hp1
-    obtain ⟨s1, r1, f1, g1, ha, hle⟩ := restLoop_good (base := base) (mj := mj) 512 e (n - 1) s O e1 a g hrl (by omega)
+    obtain ⟨s1, r1, f1, g1, ha, hle⟩ := restLoop_good (base := base) (mj := mj) hS 512 e (n - 1) s O e1 a g hrl (by omega)
       ((disambP_prefix e1).trans hpd)
-    obtain ⟨s2, r2, f2, i2, _, _, _⟩ := disamb_good (base := base) (mj := mj) g1 hpd
+    obtain ⟨s2, r2, f2, i2, _, _, _⟩ := disamb_good (base := base) (mj := mj) hS g1 hpd
     have hm : a % 256 = a := by omega
     obtain ⟨s3, r3, f3, i3⟩ := pushRest_good (base := base) (mj := mj)
       (e' := { disambP e1 with out := (disambP e1).out ++ [a % 256], lastRest := a }) i2 (b := a) (by omega)
